@@ -103,8 +103,7 @@ static void judge(vf::Ctx& ctx, const Problem& P, const Solver& es, long restart
     {
         const CLD lam((LD) evals[i].real(), (LD) evals[i].imag());
         const LD nx = X.col(i).norm();
-        // Arnoldi re-orthogonalises only when needed (0.717 test): the drift of V'V - I adds up over the restarts
-        const LD nallow = C_NORM * nc * u * (LD) (1 + restarts);
+        const LD nallow = C_NORM * nc * u * grow;
         if (!within(ctx, std::string(P.clean ? "" : "corpus:") + "unit-norm", std::abs(nx - 1), nallow)) bad("unit-norm", std::abs(nx - 1), nallow, i);
         const LD res = fnorm(VecCLD(P.AL * X.col(i) - lam * X.col(i)));
         LD allow;
@@ -213,9 +212,6 @@ static void run_history(vf::Ctx& ctx, const Problem& P, Solver& es, vw::OpCtl& c
         else
         {
             ComputeArgs a{r.pick(GEN_SELECT), r.pick(maxits), r.pick(tols), r.pick(GEN_SELECT)};
-            // tolerances of a few eps keep the Arnoldi iteration running at rounding level for hundreds of restarts (orthogonality decays): corpus only
-            if (P.clean) a.tol = tols[(size_t) r.range(2, (long) tols.size() - 1)];
-            if (P.clean && a.maxit > 50) a.maxit = r.coin() ? 30 : 50;
             const std::string shape = computed_since_init ? "after-compute" : "after-init";
             const long it0 = (long) es.num_iterations();
             ctl.limit = ctl.count + 8 * (4 + 2 * (long) P.ncv * (a.maxit + 2)) + 4 * P.nev;
@@ -232,16 +228,8 @@ static void run_history(vf::Ctx& ctx, const Problem& P, Solver& es, vw::OpCtl& c
             if (!ok) { computed_since_init = false; inited = false; continue; }
             const long restarts = (long) es.num_iterations() - it0 - 1;
             restarts_total += std::max(0L, restarts);
-            // Arnoldi has no relative breakdown test: a run that keeps restarting at rounding level (wanted set cutting a conjugate pair, keys tied, ...)
-            // feeds normalised noise into V. That regime is a recorded finding class and is judged in the fixed corpus only.
-            // The same holds for a compute() that continues after an earlier one has already converged (the residual vector is at rounding level then).
-            if (P.clean && ((long) es.num_iterations() - 1 > 60 || converged_since_init || computed_since_init))
-            {
-                ctx.count(computed_since_init ? "not_judged/continued_compute" : "not_judged/stagnating_run");
-                computed_since_init = true;
-                if (es.info() == CompInfo::Successful) converged_since_init = true;
-                continue;
-            }
+            // every compute() of the history is judged, also one that continues after an earlier compute() (converged or not) and runs of hundreds of
+            // restarts (before fix 26e3e70 those lost orthogonality geometrically and had to be kept out of the exploration)
             if (es.info() == CompInfo::Successful) converged_since_init = true;
             judge(ctx, P, es, std::max(0L, (long) es.num_iterations() - 1), a, shape, word, startkind);
             if (restarts >= 1 && ret >= 1) nontrivial = true;
